@@ -2,6 +2,7 @@
 that the repo's code makes with symbolic arguments.  Every entry here is a stub
 in the sense of DESIGN.md section 2 and is listed in the evidence."""
 import struct
+import zlib
 import binascii
 import numbers
 import math
@@ -255,6 +256,21 @@ class SymIn:
 
     def tell(self):
         return self.consumed
+
+    def seek(self, off, whence=0):
+        """io.BytesIO.seek: only forward relative moves are modelled (whence=1, off >= 0).  Like BytesIO the position
+        may silently move past the end of the data."""
+        if whence != 1:
+            raise Unsupported("seek other than relative to the current position")
+        if (off < 0):
+            raise Unsupported("backward seek")
+        before = self.consumed
+        self.read(off)
+        self.consumed = before + off  # the position moves by `off` even if fewer bytes were available
+        return self.consumed
+
+    def seekable(self):
+        return True
 
 
 # ------------------------------------------------------------------------
@@ -558,6 +574,19 @@ def m_crc32(data, *a):
     return SInt(e)
 
 
+def m_adler32(data, value=1):
+    _used("zlib.adler32 (sums modulo 65521) on byte strings of concrete length")
+    data = SBytes.lift(data)
+    if data.has_blob():
+        raise Unsupported("adler32 of opaque bytes")
+    a = value & 0xFFFF
+    b = (value >> 16) & 0xFFFF
+    for p in data.pieces:
+        a = (a + p) % 65521
+        b = (b + a) % 65521
+    return (b << 16) | a
+
+
 def m_math_floor(x):
     if isinstance(x, SFloat):
         _used("math.floor (fpRoundToIntegral RTN, then exact conversion)")
@@ -588,10 +617,11 @@ CALL_MODELS = {
     id(bytes): m_bytes,
     id(range): m_range,
     id(binascii.crc32): m_crc32,
+    id(zlib.adler32): m_adler32,
     id(math.floor): m_math_floor,
 }
 _KEEP = [struct.pack, struct.unpack, len, isinstance, type, ord, int, float, bool, bytes, range,
-         binascii.crc32, math.floor]
+         binascii.crc32, math.floor, zlib.adler32]
 
 
 def any_sym(args, kwargs=None):
